@@ -8,6 +8,8 @@
 (*                  files of the array writer, irregular blanks, gzip)     *)
 (*  array_roundtrip Numerics.array_to_file, the lines, array_from_file     *)
 (*  array_from_file Numerics.array_from_file on a given file               *)
+(*  array_stream    several array_to_file calls on one open handle, the    *)
+(*                  lines, successive array_from_file calls on one handle  *)
 (*  pickle          pickle / copy of a Spectrum and its reduce tuple       *)
 (* Files are recorded as [pre, body] (see SpectrumIO): text lines as       *)
 (* characters, number lines as the exact rational values of their decimal  *)
@@ -77,6 +79,35 @@ FArrayRoundTrip(r) ==
          F("ArrayRoundTripComments", back.comments = [j \in 1..Len(r.in.comments) |-> Strip(r.in.comments[j])])
 FArrayFromFile(r) == IF Raised(r.out) THEN {"ArrayFromFileRaised"} ELSE ArrayReadClauses(r.in.file, r.out, "ArrayRead")
 
+\* ---- several arrays written into one open handle and read back from one handle ----
+\* in.items = the arrays with their precision and comments, in the order written; out.lines = the lines found on disk
+\* (characters and tokens of each); out.reads = what in.nread successive array_from_file calls on ONE handle returned;
+\* out.rest = the lines then still unread in that handle.
+RECURSIVE StreamUsed(_, _)
+StreamUsed(items, j) == IF j = 0 THEN 0 ELSE StreamUsed(items, j - 1) + LinesOf(items[j].comments)
+\* the lines of the j-th array as written: its comment lines, the dimension line, the data line
+Segment(lines, items, j) == LET st == StreamUsed(items, j - 1) nc == Len(items[j].comments) IN
+                            [pre |-> [q \in 1..(nc + 1) |-> lines[st + q].c], body |-> <<lines[st + nc + 2].t>>]
+\* the handle after j reads, according to HandleRead
+RECURSIVE HandleAfter(_, _)
+HandleAfter(lines, j) == IF j = 0 THEN [ok |-> TRUE, h |-> [lines |-> lines, pos |-> 0]]
+                         ELSE LET prev == HandleAfter(lines, j - 1) IN IF ~prev.ok THEN prev ELSE HandleRead(prev.h)
+FArrayStream(r) ==
+    IF Raised(r.out) THEN {IF r.out.stage = "write" THEN "StreamWriteRaised" ELSE "StreamReadRaised"}
+    ELSE LET items == r.in.items  n == Len(items)  k == r.in.nread  lines == r.out.lines  reads == r.out.reads  fin == HandleAfter(lines, k) IN
+         IF Len(lines) # StreamUsed(items, n) THEN {"StreamLineCount"}
+         ELSE IF Len(reads) # k THEN {"StreamReadCount"}
+         ELSE UNION {WriteClauses(AsSpec(items[j].a), items[j].p, items[j].comments, FALSE, Segment(lines, items, j)) : j \in 1..n} \cup
+              (IF ~fin.ok THEN {"StreamFileMalformed"}
+               ELSE UNION {ArrayReadClauses(HandleFile(HandleAfter(lines, j - 1).h), reads[j], "StreamRead") : j \in 1..k} \cup
+                    F("StreamPosition", fin.h.pos = StreamUsed(items, k)) \cup
+                    F("StreamRest", r.out.rest = HandleRest(fin.h))) \cup
+              UNION {LET a == items[j].a w == AsSpec(a) IN
+                     F("StreamRoundTripShape", reads[j].a.sh = a.sh) \cup
+                     (IF reads[j].a.sh = a.sh THEN F("StreamRoundTripValues", SameValues(w.d, reads[j].a.d, items[j].p, TauParse)) ELSE {}) \cup
+                     F("StreamRoundTripComments", reads[j].comments = [q \in 1..Len(items[j].comments) |-> Strip(items[j].comments[q])])
+                     : j \in 1..k}
+
 \* ---- pickle ----
 FPickle(r) ==
     IF Raised(r.out) THEN {"PickleRaised"}
@@ -88,6 +119,7 @@ Failed(r) ==
       [] r.op = "from_file"       -> FFromFile(r)
       [] r.op = "array_roundtrip" -> FArrayRoundTrip(r)
       [] r.op = "array_from_file" -> FArrayFromFile(r)
+      [] r.op = "array_stream"    -> FArrayStream(r)
       [] r.op = "pickle"          -> FPickle(r)
       [] OTHER                    -> {"UnknownOp"}
 
